@@ -19,11 +19,12 @@ RULE = ('spec corpus, mutations, random and hostile documents, plus documents us
         'code block in the parsed tree (Pygments), none for Toc. Distinct by (renderer, text, options)')
 TRUSTED = ['Pygments itself is not modelled; PygmentsRenderer is compared only on documents without code blocks']
 ASSUMPTIONS = ['method-resolution tables are read from the imported working tree by introspection on every run']
-EXTRA_MODULES = ['Mistletoe.Proofs.ContribSame']
-PARTIAL = ['parse-level equality is proved for every text without "[[" (GithubWiki) resp. without "$" (MathJax), and for every text '
-           'for Toc / Pygments token lists (Props/C18_Text.lean); a text containing "[[" that does not form the full pattern '
-           '"[[..|..]]" is inside the property but outside the theorem: explored on the implementation; Pygments itself is not '
-           'modelled (documents with code blocks are outside its side condition)']
+EXTRA_MODULES = ['Mistletoe.Proofs.ContribSame', 'Mistletoe.Proofs.ContribSame2']
+PARTIAL = ['parse-level equality is proved for every text in which the wiki pattern "[[..|..]]" matches nowhere (GithubWiki: the '
+           'property\'s own side condition, Props/C18_NoMatch.lean), for every text without "$" (MathJax) and for every text for the '
+           'Toc / Pygments token lists (Props/C18_Text.lean); a text with a single "$", or with "$" signs that form no "$..$" pair, is '
+           'inside the property but outside the theorem: explored on the implementation; Pygments itself is not modelled (documents '
+           'with code blocks are outside its side condition)']
 
 FAMILY = [('TocRenderer', 'toc'), ('GithubWikiRenderer', 'githubWiki'), ('MathJaxRenderer', 'mathjax'),
           ('PygmentsRenderer', 'pygments')]
